@@ -160,3 +160,134 @@ MUTANTS = [
     M("benign-size-mark-after-queueing", F, "        if size is not None:\n            # like writeChunk: close() decides whether to commit when it is called, which\n            # may be before the queued _set below has run\n            self.has_changed = True\n\n        d = defer.Deferred()\n        def _set(ign):\n", "        d = defer.Deferred()\n        def _set(ign):\n", None,
       edits=[(F, "        self.async_.addCallbacks(_set, eventually_errback(d))\n", "        self.async_.addCallbacks(_set, eventually_errback(d))\n        if size is not None:\n            self.has_changed = True\n")]),
 ]
+
+# ---- C39.10 (seeded C39-F): the merge of consecutive overwrite records extracted into a helper method
+_MERGE_INLINE = (
+    "            heapq.heappop(self.overwrites)\n"
+    "            while len(self.overwrites) > 0:\n"
+    "                (start1, end1) = self.overwrites[0]\n"
+    "                if start1 > end:\n"
+    "                    break\n"
+    "                end = max(end, end1)\n"
+    "                heapq.heappop(self.overwrites)\n")
+_NEXT_METHOD = "    def _update_downloaded(self, new_downloaded):\n"
+_CALL_REGION = "            (start, end) = self._pop_merged_overwrite()\n"
+_CALL_END = "            end = self._merge_following(end)\n"
+
+
+def _helper(body):
+    return body + "\n" + _NEXT_METHOD
+
+
+def _X(name, call, helper, expect):
+    return M(name, F, _MERGE_INLINE, call, expect, edits=[(F, _NEXT_METHOD, _helper(helper))])
+
+
+MUTANTS += [
+    # the seeded mechanism: the helper keeps the end of the LAST merged record
+    _X("merge-helper-takes-last-end", _CALL_REGION,
+       "    def _pop_merged_overwrite(self):\n"
+       "        (start, end) = heapq.heappop(self.overwrites)\n"
+       "        while len(self.overwrites) > 0 and self.overwrites[0][0] <= end:\n"
+       "            (_, end) = heapq.heappop(self.overwrites)\n"
+       "        return (start, end)\n", "C39.10"),
+    # a different edit with the same effect: the caller pops, the helper merges the following records and assigns end1
+    _X("merge-helper-assigns-end1", "            heapq.heappop(self.overwrites)\n" + _CALL_END,
+       "    def _merge_following(self, end):\n"
+       "        while len(self.overwrites) > 0:\n"
+       "            (start1, end1) = self.overwrites[0]\n"
+       "            if start1 > end:\n"
+       "                break\n"
+       "            end = end1\n"
+       "            heapq.heappop(self.overwrites)\n"
+       "        return end\n", "C39.10"),
+    # the guard of the re-binding compares the wrong way round
+    _X("merge-helper-guard-inverted", _CALL_REGION,
+       "    def _pop_merged_overwrite(self):\n"
+       "        (start, end) = heapq.heappop(self.overwrites)\n"
+       "        while len(self.overwrites) > 0 and self.overwrites[0][0] <= end:\n"
+       "            (_, end1) = heapq.heappop(self.overwrites)\n"
+       "            if end1 < end:\n"
+       "                end = end1\n"
+       "        return (start, end)\n", "C39.10"),
+    # the helper merges every pending record, adjoining or not: download data between two overwrites is skipped
+    _X("merge-helper-merges-everything", _CALL_REGION,
+       "    def _pop_merged_overwrite(self):\n"
+       "        (start, end) = heapq.heappop(self.overwrites)\n"
+       "        while len(self.overwrites) > 0:\n"
+       "            (_, end1) = heapq.heappop(self.overwrites)\n"
+       "            end = max(end, end1)\n"
+       "        return (start, end)\n", "C39.10"),
+    # the adjacency test is made against the record's end instead of its start
+    _X("merge-helper-compares-record-end", _CALL_REGION,
+       "    def _pop_merged_overwrite(self):\n"
+       "        (start, end) = heapq.heappop(self.overwrites)\n"
+       "        while len(self.overwrites) > 0 and self.overwrites[0][0] <= self.overwrites[0][1]:\n"
+       "            (_, end1) = heapq.heappop(self.overwrites)\n"
+       "            end = max(end, end1)\n"
+       "        return (start, end)\n", "C39.10"),
+    # write() pops the examined record AND the helper starts from the first record again
+    _X("merge-helper-after-caller-pop", "            heapq.heappop(self.overwrites)\n" + _CALL_REGION,
+       "    def _pop_merged_overwrite(self):\n"
+       "        (start, end) = heapq.heappop(self.overwrites)\n"
+       "        while len(self.overwrites) > 0 and self.overwrites[0][0] <= end:\n"
+       "            (_, end1) = heapq.heappop(self.overwrites)\n"
+       "            end = max(end, end1)\n"
+       "        return (start, end)\n", "C39.10"),
+    # the helper is handed the start of the region instead of its end
+    _X("merge-helper-started-from-start", "            heapq.heappop(self.overwrites)\n            end = self._merge_following(start)\n",
+       "    def _merge_following(self, end):\n"
+       "        while len(self.overwrites) > 0:\n"
+       "            (start1, end1) = self.overwrites[0]\n"
+       "            if start1 > end:\n"
+       "                break\n"
+       "            end = max(end, end1)\n"
+       "            heapq.heappop(self.overwrites)\n"
+       "        return end\n", "C39.10"),
+    # the helper reads the first record without knowing that there is one
+    _X("merge-helper-top-unguarded", _CALL_REGION,
+       "    def _pop_merged_overwrite(self):\n"
+       "        (start, end) = heapq.heappop(self.overwrites)\n"
+       "        while self.overwrites[0][0] <= end:\n"
+       "            (_, end1) = heapq.heappop(self.overwrites)\n"
+       "            end = max(end, end1)\n"
+       "        return (start, end)\n", "C39.7"),
+    # behaviour-preserving extractions
+    _X("benign-merge-helper-max", _CALL_REGION,
+       "    def _pop_merged_overwrite(self):\n"
+       "        (start, end) = heapq.heappop(self.overwrites)\n"
+       "        while len(self.overwrites) > 0 and self.overwrites[0][0] <= end:\n"
+       "            (_, end1) = heapq.heappop(self.overwrites)\n"
+       "            end = max(end, end1)\n"
+       "        return (start, end)\n", None),
+    _X("benign-merge-helper-verbatim", "            heapq.heappop(self.overwrites)\n" + _CALL_END,
+       "    def _merge_following(self, end):\n"
+       "        while len(self.overwrites) > 0:\n"
+       "            (start1, end1) = self.overwrites[0]\n"
+       "            if start1 > end:\n"
+       "                break\n"
+       "            end = max(end, end1)\n"
+       "            heapq.heappop(self.overwrites)\n"
+       "        return end\n", None),
+    _X("benign-merge-helper-pops-itself", _CALL_END,
+       "    def _merge_following(self, end):\n"
+       "        heapq.heappop(self.overwrites)\n"
+       "        while self.overwrites:\n"
+       "            (start1, end1) = self.overwrites[0]\n"
+       "            if not (start1 <= end):\n"
+       "                break\n"
+       "            heapq.heappop(self.overwrites)\n"
+       "            if end1 > end:\n"
+       "                end = end1\n"
+       "        return end\n", None),
+    _X("benign-merge-helper-guarded-pop", _CALL_REGION,
+       "    def _pop_merged_overwrite(self):\n"
+       "        region = heapq.heappop(self.overwrites)\n"
+       "        (start, end) = region\n"
+       "        while len(self.overwrites) > 0 and self.overwrites[0][0] <= end:\n"
+       "            if self.overwrites[0][1] > end:\n"
+       "                (_, end) = heapq.heappop(self.overwrites)\n"
+       "            else:\n"
+       "                heapq.heappop(self.overwrites)\n"
+       "        return (start, end)\n", None),
+]
